@@ -33,6 +33,7 @@ import AGV.Model.UploadBind
 import AGV.Model.Peg
 import AGV.Gen.Grammar
 import AGV.Gen.ParserLimits
+import AGV.Gen.LimitFacts
 
 namespace AGV.Model.Hostile
 open AGV.Model.UploadBind (stripPrefix parseUsize)
@@ -195,15 +196,49 @@ abbrev Spreads := List (List Nat)
     `spreadsExpanded` every spread is followed; the repaired version visits a fragment once
     (`seen`).  Fuel is only the structural argument: the depth bound `d ≤ max` cuts every
     path, cycles included. -/
+def sumOpt : List (Option Nat) → Option Nat
+  | [] => some 0
+  | none :: _ => none
+  | some a :: r => (sumOpt r).map (· + a)
+
 def spreadVisits (frags : Spreads) (max : Nat) : Nat → Nat → Nat → Option Nat
   | 0, _, _ => none
   | fuel + 1, d, i =>
     if d > max then none
-    else
-      (frags.getD i []).foldl (fun acc j =>
-        match acc with
-        | none => none
-        | some n => (spreadVisits frags max fuel (d + 1) j).map (· + n)) (some 1)
+    else (sumOpt ((frags.getD i []).map (fun j => spreadVisits frags max fuel (d + 1) j))).map (· + 1)
+
+/-- `check_max_directives` (src/schema.rs) on fragment `i`: it follows every spread like
+    `check_recursive_depth` does but has NO depth bound and no visited set — on a reachable
+    cycle it recurses until the stack is gone.  `stack` = the nesting the real stack affords,
+    `none` = overflow (a process abort). -/
+def dirWalk (frags : Spreads) : Nat → Nat → Option Nat
+  | 0, _ => none
+  | stack + 1, i => (sumOpt ((frags.getD i []).map (fun j => dirWalk frags stack j))).map (· + 1)
+
+inductive Pre where
+  | rejected   -- answered with an error
+  | passed     -- handed on to validation / execution
+  | overflow   -- the stack is exhausted: the process dies
+  deriving Repr, DecidableEq, Inhabited
+
+/-- the pre-execution checks of `prepare_request`, run in the given order (the order in the source
+    is the generated `AGV.Gen.LimitFacts.checkOrder`) on the spread graph reachable from `root`;
+    `maxDirs = none`: `limit_directives` is not set and the directives walk does not run -/
+def runChecks (frags : Spreads) (max : Nat) (maxDirs : Option Nat) (stack root : Nat) : List String → Pre
+  | [] => .passed
+  | c :: rest =>
+    if c = "check_recursive_depth" then
+      (match spreadVisits frags max stack 0 root with
+       | none => .rejected
+       | some _ => runChecks frags max maxDirs stack root rest)
+    else if c = "check_max_directives" then
+      (match maxDirs with
+       | none => runChecks frags max maxDirs stack root rest
+       | some _ =>
+         match dirWalk frags stack root with
+         | none => .overflow
+         | some _ => runChecks frags max maxDirs stack root rest)
+    else runChecks frags max maxDirs stack root rest
 
 /-- the bomb family: fragment `i < n-1` spreads fragment `i+1` `k` times, the last one none -/
 def bomb (k : Nat) : Nat → Spreads
@@ -232,7 +267,10 @@ def nestAnswer (exec : Bool) (kind : String) (n : Nat) : Option Ans :=
   else if kind = "listopen" ∨ kind = "objopen" ∨ kind = "selopen" then some .err
   else if kind = "widedirs" then some (if exec && n ≥ 2 then .err else .ok)   -- repeated directive
   else if kind = "fragchain" ∨ kind = "fragbomb" then some (if exec && n > execRecursiveDepth then .err else .ok)
-  else if kind = "fragcycle" then some (if exec then .err else .ok)
+  else if kind = "fragcycle" ∨ kind = "cycreach" ∨ kind = "cycinline" ∨ kind = "cycunreach" ∨
+          kind = "undefspread" ∨ kind = "undefchain" then some (if exec then .err else .ok)
+  else if kind = "dirsdeep" ∨ kind = "dirsfrag" then some (if exec && n ≥ 2 then .err else .ok)
+  else if kind = "intro" then some .ok
   else none
 
 /-- bracket nesting depth of the text of member `n` of a family (what the pre-scan counts) -/
@@ -247,6 +285,38 @@ def nestTextDepth (kind : String) (n : Nat) : Nat :=
 def nestAnswerD (D : Defects) (exec : Bool) (kind : String) (n : Nat) : Option Ans :=
   if !D.noNestingLimit && nestTextDepth kind n > nestingLimit then some .err
   else nestAnswer exec kind n
+
+/-- schema configuration of a case: `limit_directives`, `limit_depth`, `limit_complexity`,
+    `limit_recursive_depth`, `ValidationMode::Fast`, `disable_introspection` -/
+structure Cfg where
+  dirs : Option Nat := none
+  depth : Option Nat := none
+  cplx : Option Nat := none
+  rdepth : Option Nat := none
+  fast : Bool := false
+  nointro : Bool := false
+  deriving Repr, Inhabited, DecidableEq
+
+def Cfg.isDefault (c : Cfg) : Bool := c == {}
+
+/-- What EVERY configuration must answer with an error when the member is executed: the inputs
+    the pre-execution guards exist for.  (Everything else is configuration-dependent and only
+    required not to crash.) -/
+def mustErr (cfg : Cfg) (kind : String) (n : Nat) : Bool :=
+  let rd := cfg.rdepth.getD execRecursiveDepth
+  -- a fragment cycle that the operation reaches; a spread of an undefined fragment
+  (kind = "fragcycle" || kind = "cycreach" || kind = "cycinline" || kind = "undefspread" || kind = "undefchain")
+  -- an unreachable cycle is a validation error unless validation is `Fast`
+  || (kind = "cycunreach" && !cfg.fast)
+  -- more directives on one field than `limit_directives`
+  || ((kind = "widedirs" || kind = "dirsdeep" || kind = "dirsfrag") &&
+        (match cfg.dirs with | some d => decide (n > d) | none => false))
+  -- a repeated non-repeatable directive, unless validation is `Fast`
+  || ((kind = "widedirs" || kind = "dirsdeep" || kind = "dirsfrag") && !cfg.fast && n ≥ 2)
+  -- selection sets / fragment chains nested deeper than `recursive_depth`
+  || ((kind = "sel" || kind = "inline") && n > rd + 1)
+  || ((kind = "fragchain" || kind = "fragbomb") && n > rd)
+  || kind = "listopen" || kind = "objopen" || kind = "selopen"
 
 /-- families whose members nest brackets / selection sets `n` deep (the recursive descent goes
     at least that deep) -/
